@@ -68,3 +68,8 @@ claim('C12', 'exploration',
       'Trusted: pysam fetch, multiprocessing. Site within max_fragment_size of the read; paired-end reads with exactly one of read1/read2; no unmapped records.',
       'property-based testing (Hypothesis): reference recount + metamorphic relation over all job partitions; completion order owned by a deterministic pool',
       'DESIGN.md section 4, C12')
+claim('C19', 'fault_enumeration',
+      'Hypothesis-generated write histories over up to 200 target files (gzip / plain, maxHandles 1..40, pruneEvery 1..50, explicit close calls) with a generated fault plan for open() (descriptor limit k>=1, transient failures of the n-th open, permanent failure of one path) injected through counting wrappers around the real open / gzip.open inside the handlelimiter module; driven on HandleLimiter directly and through FastqHandle(single_cell=True); every file is read back and compared with the model of returned writes, live handles must be zero after close, and a raise is accepted only if the last failed attempt happened with nothing else open.',
+      'Faults at open() only; gzip module and file system trusted. The multi-pass bamSplitByTag loop and a real RLIMIT_NOFILE are not exercised.',
+      'model-based property-based testing (Hypothesis operation sequences + generated fault plans) against a dictionary model',
+      'DESIGN.md section 4, C19')
